@@ -266,7 +266,11 @@ class _ReconnectionHandler(object):
             log.debug("Reconnection handler was cancelled before starting")
             return
 
-        first_delay = next(self.schedule)
+        try:
+            first_delay = next(self.schedule)
+        except StopIteration:
+            log.warning("Will not attempt reconnection due to an empty retry schedule")
+            return
         self.scheduler.schedule(first_delay, self.run)
 
     def run(self):
